@@ -12,6 +12,7 @@ package names
 //@ axiom forall s string :: len(s) == 0 ==> s == ""
 //@ axiom bstr(0) == ""
 //@ axiom forall x string :: "" + x == x
+//@ axiom forall c int :: len(sbyte(c)) == 1 && sbyte(c)[0] == c     -- as in types/model (needed by the round-trip clauses of (Name).String)
 
 // ---- character classes of the second validator ----
 // Differences to types/model.isValidPart: the empty string passes (callers test != ""),
@@ -95,7 +96,7 @@ package names
 
 // The model part never contains one of the separators the parser splits at.
 //@ func Parse
-//@   ensures len(s) > MaxNameLength ==> result.h == "" && result.n == "" && result.m == "" && result.t == ""
+//@   ensures len(s) > 593 ==> result.h == "" && result.n == "" && result.m == "" && result.t == ""
 //@   ensures result.m == "" || forall j int :: 0 <= j && j < len(result.m) ==> result.m[j] != 47 && result.m[j] != 58
 // -- C13 strengthening (audit): Parse is the grammar  [[host "/"] namespace "/"] model [":" tag]  read
 // from the right. nmk(s) is the position of the last '/' or ':'. No separator: all of s is the
@@ -114,10 +115,10 @@ package names
 //@   loop 1 invariant n.h == "" && n.n == "" && n.m == ""
 //@   loop 1 invariant (s == nmstr(ghost_s0) && n.t == "") || (nmk(nmstr(ghost_s0)) >= 0 && nmstr(ghost_s0)[nmk(nmstr(ghost_s0))] == 58 && s == nmhd(nmstr(ghost_s0)) && n.t == nmtl(nmstr(ghost_s0))) || (nmk(nmstr(ghost_s0)) >= 0 && nmstr(ghost_s0)[nmk(nmstr(ghost_s0))] == 58 && nmk(nmhd(nmstr(ghost_s0))) >= 0 && nmhd(nmstr(ghost_s0))[nmk(nmhd(nmstr(ghost_s0)))] == 58)
 //@   loop 1 invariant n.t == "" || forall j int :: 0 <= j && j < len(n.t) ==> n.t[j] != 47 && n.t[j] != 58
-//@   ensures len(s) <= MaxNameLength && nmk(s) < 0 ==> result.m == s && result.t == "" && result.h == "" && result.n == ""
-//@   ensures len(s) <= MaxNameLength && nmk(s) >= 0 && s[nmk(s)] == 47 ==> result.m == nmtl(s) && result.t == "" && result.h == nmhost(nmhd(s)) && result.n == nmns(nmhd(s))
-//@   ensures len(s) <= MaxNameLength && nmk(s) >= 0 && s[nmk(s)] == 58 && nmk(nmhd(s)) < 0 ==> result.m == nmhd(s) && result.t == nmtl(s) && result.h == "" && result.n == ""
-//@   ensures len(s) <= MaxNameLength && nmk(s) >= 0 && s[nmk(s)] == 58 && nmk(nmhd(s)) >= 0 && nmhd(s)[nmk(nmhd(s))] == 47 ==> result.m == nmtl(nmhd(s)) && result.t == nmtl(s) && result.h == nmhost(nmhd(nmhd(s))) && result.n == nmns(nmhd(nmhd(s)))
+//@   ensures len(s) <= 593 && nmk(s) < 0 ==> result.m == s && result.t == "" && result.h == "" && result.n == ""
+//@   ensures len(s) <= 593 && nmk(s) >= 0 && s[nmk(s)] == 47 ==> result.m == nmtl(s) && result.t == "" && result.h == nmhost(nmhd(s)) && result.n == nmns(nmhd(s))
+//@   ensures len(s) <= 593 && nmk(s) >= 0 && s[nmk(s)] == 58 && nmk(nmhd(s)) < 0 ==> result.m == nmhd(s) && result.t == nmtl(s) && result.h == "" && result.n == ""
+//@   ensures len(s) <= 593 && nmk(s) >= 0 && s[nmk(s)] == 58 && nmk(nmhd(s)) >= 0 && nmhd(s)[nmk(nmhd(s))] == 47 ==> result.m == nmtl(nmhd(s)) && result.t == nmtl(s) && result.h == nmhost(nmhd(nmhd(s))) && result.n == nmns(nmhd(nmhd(s)))
 //@   ensures result.t == "" || forall j int :: 0 <= j && j < len(result.t) ==> result.t[j] != 47 && result.t[j] != 58
 //@   ensures forall j int :: 0 <= j && j < len(result.n) ==> result.n[j] != 47
 
@@ -144,7 +145,7 @@ package names
 //@   assume-at return : (forall s string, lo int, hi int :: 0 <= lo && lo <= hi && hi <= len(s) ==> len(s[lo:hi]) == hi - lo) && (forall s string, lo int, hi int, j int :: 0 <= lo && lo <= hi && hi <= len(s) && 0 <= j && j < hi - lo ==> s[lo:hi][j] == s[lo + j])
 //@   assume-at return : forall x string, y string :: seqx(x, y) ==> x == y
 //@   assume-at return : (forall s string :: -1 <= slastindexany(s, "/:") && slastindexany(s, "/:") < len(s) && (slastindexany(s, "/:") >= 0 ==> s[slastindexany(s, "/:")] == 47 || s[slastindexany(s, "/:")] == 58) && (forall j int :: slastindexany(s, "/:") < j && j < len(s) ==> s[j] != 47 && s[j] != 58)) && (forall s string :: -1 <= slastindexany(s, "/") && slastindexany(s, "/") < len(s) && (slastindexany(s, "/") >= 0 ==> s[slastindexany(s, "/")] == 47) && (forall j int :: slastindexany(s, "/") < j && j < len(s) ==> s[j] != 47))
-//@   assert-at return : fqname(n.h, n.n, n.m, n.t) ==> result == rtY(n.h, n.n, n.m) + sbyte(58) + n.t && len(result) == (len(n.h) + len(n.n) + len(n.m) + 2) + 1 + len(n.t) && len(rtY(n.h, n.n, n.m)) == (len(n.h) + len(n.n) + len(n.m) + 2) && len(rtZ(n.h, n.n)) == (len(n.h) + len(n.n) + 1) && len(result) <= MaxNameLength
+//@   assert-at return : fqname(n.h, n.n, n.m, n.t) ==> result == rtY(n.h, n.n, n.m) + sbyte(58) + n.t && len(result) == (len(n.h) + len(n.n) + len(n.m) + 2) + 1 + len(n.t) && len(rtY(n.h, n.n, n.m)) == (len(n.h) + len(n.n) + len(n.m) + 2) && len(rtZ(n.h, n.n)) == (len(n.h) + len(n.n) + 1) && len(result) <= 593
 //@   assert-at return : fqname(n.h, n.n, n.m, n.t) ==> n.h != "" && n.n != "" && n.m != "" && n.t != "" && rtY(n.h, n.n, n.m) != "" && rtZ(n.h, n.n) != ""
 //@   assert-at return : fqname(n.h, n.n, n.m, n.t) ==> (forall j int :: 0 <= j && j < len(n.t) ==> n.t[j] != 47 && n.t[j] != 58) && (forall j int :: 0 <= j && j < len(n.m) ==> n.m[j] != 47 && n.m[j] != 58) && (forall j int :: 0 <= j && j < len(n.n) ==> n.n[j] != 47 && n.n[j] != 58) && (forall j int :: 0 <= j && j < len(n.h) ==> n.h[j] != 47)
 //@   assert-at return : fqname(n.h, n.n, n.m, n.t) ==> rtZ(n.h, n.n)[len(n.h)] == 47 && (forall k int :: len(n.h) < k && k < (len(n.h) + len(n.n) + 1) ==> rtZ(n.h, n.n)[k] != 47) && (forall k int :: 0 <= k && k < len(n.h) ==> rtZ(n.h, n.n)[k] == n.h[k])
@@ -160,8 +161,8 @@ package names
 //@   assert-at return : fqname(n.h, n.n, n.m, n.t) ==> seqx(rtZ(n.h, n.n)[nmsl(rtZ(n.h, n.n))+1:len(rtZ(n.h, n.n))], n.n) && seqx(rtZ(n.h, n.n)[0:nmsl(rtZ(n.h, n.n))], n.h)
 //@   assert-at return : fqname(n.h, n.n, n.m, n.t) ==> nmns(rtZ(n.h, n.n)) == n.n && nmhost(rtZ(n.h, n.n)) == n.h
 //@   assert-at return : fqname(n.h, n.n, n.m, n.t) ==> nmk(nmhd(result)) == (len(n.h) + len(n.n) + 1) && nmhd(result)[nmk(nmhd(result))] == 47 && nmtl(nmhd(result)) == n.m && nmhd(nmhd(result)) == rtZ(n.h, n.n)
-//@   ensures fqname(n.h, n.n, n.m, n.t) ==> len(result) <= MaxNameLength && nmk(result) >= 0 && result[nmk(result)] == 58 && nmk(nmhd(result)) >= 0 && nmhd(result)[nmk(nmhd(result))] == 47
-//@   ensures fqname(n.h, n.n, n.m, n.t) ==> nmtl(nmhd(result)) == n.m && nmtl(result) == n.t && nmhost(nmhd(nmhd(result))) == n.h && nmns(nmhd(nmhd(result))) == n.n
+//@   assert-at return : fqname(n.h, n.n, n.m, n.t) ==> len(result) <= 593 && nmk(result) >= 0 && result[nmk(result)] == 58 && nmk(nmhd(result)) >= 0 && nmhd(result)[nmk(nmhd(result))] == 47
+//@   assert-at return : fqname(n.h, n.n, n.m, n.t) ==> nmtl(nmhd(result)) == n.m && nmtl(result) == n.t && nmhost(nmhd(nmhd(result))) == n.h && nmns(nmhd(nmhd(result))) == n.n
 
 // -- C13 strengthening (audit): extended-name splitting. The scheme is what precedes the FIRST "://",
 // the digest what follows the LAST '@' of the remainder, the name what lies between; nothing is
